@@ -127,3 +127,14 @@ Definition check_pot (c : list (list float) * gtree * Z * list (Z * list (msurf 
       && list_eqb (pair_eqb Z.eqb entry_eqb) (firstn (List.length news) tb2) news
   | Err _ => false
   end.
+
+(* (j) convert_mcnp_surface on a dictionary entry *)
+Definition check_entry (c : list (msurf float * Z) * res (list (t4surf float * Z))) : bool :=
+  res_eqb coll_eqb (convert_entry FS (fst c)) (snd c).
+
+(* (k) direct calls: Transformation.normalize_transform, Transformation.transform_vector *)
+Definition check_nt (c : list (option float) * res (list float)) : bool :=
+  res_eqb fl_eqb (normalize_transform FS (fst c)) (snd c).
+Definition check_affine (c : list float * V3 float * V3 float) : bool :=
+  let '(tr, v, expected) := c in
+  match apply_affine FS tr v with Some w => fl_eqb (vlist w) (vlist expected) | None => false end.
